@@ -225,6 +225,7 @@ def check(run):
         run.holds("F-CACHE/face-areas", c, where(fa, call), "cached face_areas come from compute_face_areas() with all-default arguments")
     else:
         run.violation("F-CACHE/face-areas", c, where(fa, call), f"cached face_areas are computed by {norm(call)}: they differ from a fresh default computation")
+    _memo_paths(run, P, f)
     reads_cache = any(str_const(n.slice) == "face_areas" for n in ast.walk(f.node) if isinstance(n, ast.Subscript)) or any(isinstance(n, ast.Attribute) and n.attr == "face_areas" for n in ast.walk(f.node))
     c = "Grid.compute_face_areas:ignores-cache"
     if reads_cache:
@@ -232,3 +233,42 @@ def check(run):
     else:
         run.holds("F-CACHE/face-areas", c, where(f), "compute_face_areas recomputes from coordinates")
     lazy.check_getters(run, P, ["face_areas"])
+
+
+def _memo_paths(run, P, f):
+    """compute_face_areas(rule, order, latlon) must compute from the grid's CURRENT coordinates: every returning path passes
+    through the area routine.  A path that returns stored attributes instead is a memo of a quantity derived from the node
+    coordinates; it is only sound if every public coordinate setter of Grid resets it (none does today)."""
+    from ..flow import enumerate_paths
+    paths = [p for p in enumerate_paths(f.node.body) if p.exit == "return"]
+    c = "Grid.compute_face_areas:every-return-computes"
+    short = []
+    for p in paths:
+        computed = any(isinstance(n, ast.Call) and (dotted(n.func) or [""])[-1] == "get_all_face_area_from_coords" for e in p.events for n in ast.walk(e))
+        if not computed:
+            short.append(p)
+    if not paths:
+        run.incomplete("F-CACHE/face-areas", c, where(f), "no returning path found")
+        return
+    if not short:
+        run.holds("F-CACHE/face-areas", c, where(f), f"all {len(paths)} returning paths call the area routine on the current coordinates")
+        return
+    # memo present: which attributes guard it, and do the coordinate setters reset them?
+    guard_attrs = sorted({n.attr for p in short for t, _v in p.conds for n in ast.walk(t) if isinstance(n, ast.Attribute) and isinstance(n.value, ast.Name) and n.value.id == "self" and n.attr.startswith("_")})
+    ci = P.cls("uxarray/grid/grid.py:Grid")
+    setters = [m for m in ci.all_methods if any(norm(d).endswith(".setter") for d in m.node.decorator_list) and m.name.split("_")[-1] in ("lon", "lat", "x", "y", "z") and m.name.startswith("node_")] if hasattr(ci, "all_methods") else []
+    if not setters:
+        # fall back: scan the class body
+        for st in ci.node.body:
+            if isinstance(st, ast.FunctionDef) and any(norm(d).endswith(".setter") for d in st.decorator_list) and st.name.startswith("node_"):
+                setters.append(st)
+    def resets(fnode):
+        node = getattr(fnode, "node", fnode)
+        return any(isinstance(s2, ast.Assign) and isinstance(s2.targets[0], ast.Attribute) and s2.targets[0].attr in guard_attrs for s2 in ast.walk(node))
+    stale = [getattr(m, "name", None) or m.name for m in setters if not resets(m)]
+    if guard_attrs and setters and not stale:
+        run.holds("F-CACHE/face-areas", c, where(f), f"memo on {guard_attrs} is reset by every node coordinate setter")
+    else:
+        run.violation("F-CACHE/face-areas", c, where(f, short[0].events[-1] if short[0].events else None),
+                      f"{len(short)} returning path(s) hand back stored areas (guarded by {guard_attrs}) without recomputing; the node coordinate setters {stale[:5]} do not reset that memo, "
+                      "so after the geometry is edited compute_face_areas/integrate keep using the areas of the previous geometry")
